@@ -651,6 +651,9 @@ package hclsyntax
 //@ ensures argsSame: len(e.Args) == old(len(e.Args)) && (forall j int :: { e.Args[j] } 0 <= j && j < len(e.Args) ==> e.Args[j] == old(e.Args[j]))
 //@ loopall invariant argsSame: len(e.Args) == old(len(e.Args)) && (forall j int :: { e.Args[j] } 0 <= j && j < len(e.Args) ==> e.Args[j] == old(e.Args[j]))
 //@ loop 4 invariant fresh(newArgs)
+// (round 8, C06) every argument made from an element of the expanded collection carries every mark of
+// the collection - whether or not the element has marks of its own
+//@ loop 4 invariant elemMarks: forall j int, k iface :: { newArgs[j], has(marks, k) } len(args) - 1 <= j && j < len(newArgs) && has(marks, k) ==> typeis(newArgs[j], ptr(LiteralValueExpr)) && unbox(newArgs[j], ptr(LiteralValueExpr)) != nil && marked(unbox(newArgs[j], ptr(LiteralValueExpr)).Val, k)
 //@ loop 4 invariant !fresh(e.Args)
 // (the argument list existed before the call: trivially true for any caller, stated because the
 // engine does not derive the age of a slice loaded from the heap)
